@@ -93,7 +93,8 @@ PROPS = {
         "suites": ["key", "codec", "crash"],
         "skeleton_funcs": FS_SKEL,
         "trusted_base": DB_TB + FS_TB + ["extract/gotrans.go (DESIGN section 14) regenerates GenLevel.writeTable (levelManager.writeTable: the order of create, write, fsync, close and rename of a table file, error branches included) from /repo on every run; LevelTie.writeTable_table / writeTable_rename_after_sync are part of this property's module; the os calls are events",
-                                         "extract/gotrans.go also regenerates GenWal.write (WAL.Write); WalTie.write_table / write_ack (nil is returned only after the one write of the batch and a successful fsync) are part of this property's module"],
+                                         "extract/gotrans.go also regenerates GenWal.write (WAL.Write); WalTie.write_table / write_ack (nil is returned only after the one write of the batch and a successful fsync) are part of this property's module",
+                                         "extract/gotrans.go also regenerates GenWal.read (WAL.Read: the record loop over the bytes of the file with its two torn-tail exits); WalTie.loop_record / loop_torn / read_back; the bytes.Reader is the list of the bytes not yet read, binary.Read of 8 bytes fails exactly when fewer are left, TUnmarshal and the int64 decoding are function parameters constrained by WalTie.CodecOK (what C11 proves of the codec)"],
         "assumptions": ["directory operations (create, rename, remove) are ordered and durable, as the property states; only file contents after the last fsync can be lost",
                         "that the code is the program Prog is tied dynamically (recorded traces must be traces of Prog.act) and by the skeleton"],
         "explanation": "CutOf (wals keep at least their synced records, tmp files arbitrary, published tables intact) preserves Inv and WF; recover on any cut disk serves every acknowledged entry; the program model Prog with lossy crash steps (Reach) keeps Inv/WF and never emits a rejected event, recoveries after a loss included; crash suite cuts unsynced tails of every file at several lengths at every crash point",
